@@ -455,6 +455,14 @@ pub fn build_module(ctx: Arc<HCtx>) -> RpcModule<HCtx> {
 		panic!("blocking_panic handler panics on purpose")
 	})
 	.unwrap();
+	m.register_method("guard_probe", |p, c, ext| {
+		c.record("guard_probe", &p, "run");
+		match ext.get::<ConnectionGuard>() {
+			Some(g) => json!({"max": g.max_connections(), "available": g.available_connections()}),
+			None => json!(null),
+		}
+	})
+	.unwrap();
 	// --- subscriptions (actor handlers)
 	m.register_subscription("sub_a", "notif_a", "unsub_a", |p, pending, c, ext| {
 		let conn = ext.get::<jsonrpsee_core::server::ConnectionId>().map(|c| c.0).unwrap_or(usize::MAX);
@@ -473,7 +481,7 @@ pub fn is_registered_call(name: &str) -> bool {
 	matches!(
 		name,
 		"echo_sync" | "typed_sync" | "fail_sync" | "big_sync" | "echo_async" | "typed_async" | "fail_async" | "big_async" | "gated_async"
-			| "echo_blocking" | "typed_blocking" | "fail_blocking" | "big_blocking" | "gated_blocking" | "blocking_panic"
+			| "echo_blocking" | "typed_blocking" | "fail_blocking" | "big_blocking" | "gated_blocking" | "blocking_panic" | "guard_probe"
 	)
 }
 
@@ -555,6 +563,19 @@ impl Fixture {
 			let _ = jsonrpsee_server::serve_with_graceful_shutdown(server_io, svc, stop.shutdown()).await;
 		});
 		WsPeer::connect(client_io, conn).await
+	}
+}
+
+impl Fixture {
+	/// A raw in-memory connection served by hyper (`serve_with_graceful_shutdown`): the caller writes HTTP/1.1 bytes.
+	pub fn raw_conn(&self, duplex_size: usize) -> (tokio::io::DuplexStream, tokio::task::JoinHandle<()>) {
+		let svc = self.service();
+		let (client_io, server_io) = tokio::io::duplex(duplex_size);
+		let stop = self.stop.clone();
+		let conn = tokio::spawn(async move {
+			let _ = jsonrpsee_server::serve_with_graceful_shutdown(server_io, svc, stop.shutdown()).await;
+		});
+		(client_io, conn)
 	}
 }
 
